@@ -8,11 +8,6 @@ verus! {
 //!include prelude/app.rs
 pub mod graph { pub use super::graph_err::GraphError; }
 
-// entry i of the directory is a regular file whose stem is the command name
-pub open spec fn stem_hit(dir: Seq<char>, name: Seq<char>, i: int) -> bool {
-    0 <= i < dir_listing(dir).len() && is_file_spec(dir_listing(dir)[i]) && file_stem_of(dir_listing(dir)[i]) == Some(name)
-}
-
 //!fn src/core/file.rs find_file_by_stem rules=R1,R17 props=C11,C05
 pub(crate) fn find_file_by_stem(name: &str, dir: &path::Path) -> ⟦(r: ⟧Option<path::PathBuf>⟦)⟧
 @    ensures
